@@ -59,7 +59,7 @@ const (
 // Call is one backend call (an interval on the logical clock).
 type Call struct {
 	ID     int64
-	H      int    // handle id (0 for Attach)
+	H      int // handle id (0 for Attach)
 	Method string
 	Class  Class
 	Path   string // receiver path at enter
@@ -96,13 +96,13 @@ type Overlap struct {
 
 // HState is the lifecycle record of one handle.
 type HState struct {
-	ID         int
-	CreatedBy  string
-	Path       string
-	Closes     int
-	Opens      int
-	Inflight   int
-	AfterClose []string // methods begun after Close began
+	ID          int
+	CreatedBy   string
+	Path        string
+	Closes      int
+	Opens       int
+	Inflight    int
+	AfterClose  []string // methods begun after Close began
 	CloseDuring []string // methods in flight when Close began
 }
 
@@ -161,28 +161,29 @@ type FS struct {
 	Root    *Node
 	nextIno uint64
 
-	evmu     sync.Mutex // events, monitors, gates, faults
-	calls    []*Call
-	active   map[int64]*Call
-	handles  map[int]*HState
-	nextH    int
-	nextCall int64
-	overlaps []Overlap
-	nameViol []string
-	notes    []string
-	gates    []*Gate
-	faults   []*Fault
-	maxConc  int
-	sumConc  int64
+	evmu         sync.Mutex // events, monitors, gates, faults
+	calls        []*Call
+	active       map[int64]*Call
+	handles      map[int]*HState
+	nextH        int
+	nextCall     int64
+	overlaps     []Overlap
+	nameViol     []string
+	notes        []string
+	gates        []*Gate
+	faults       []*Fault
+	maxConc      int
+	sumConc      int64
+	faultsPaused bool
 
 	// Options
-	NoWalkGetAttr bool  // WalkGetAttr returns ENOSYS (server falls back to Walk+GetAttr)
+	NoWalkGetAttr  bool // WalkGetAttr returns ENOSYS (server falls back to Walk+GetAttr)
 	AltWalkGetAttr bool // alternate ENOSYS / supported
-	altFlip       uint32
-	jitter        uint64 // non-zero: seed for scheduling perturbation
-	NoLog         bool   // keep only counters (long stress runs)
-	CloseErr      error  // returned by Close
-	Recursive     bool   // UnlinkAt / RenameAt remove or replace non-empty directories (a backend may)
+	altFlip        uint32
+	jitter         uint64 // non-zero: seed for scheduling perturbation
+	NoLog          bool   // keep only counters (long stress runs)
+	CloseErr       error  // returned by Close
+	Recursive      bool   // UnlinkAt / RenameAt remove or replace non-empty directories (a backend may)
 }
 
 // New creates an empty file system with a root directory.
@@ -430,9 +431,6 @@ func (fs *FS) enter(h *H, method string, o enterOpts) (*Call, error) {
 			if st.Closes > 0 {
 				st.AfterClose = append(st.AfterClose, method)
 			}
-			if method == "Open" {
-				st.Opens++
-			}
 		}
 		st.Inflight++
 	}
@@ -458,6 +456,9 @@ func (fs *FS) enter(h *H, method string, o enterOpts) (*Call, error) {
 	var ferr error
 	var fpanic bool
 	for _, f := range fs.faults {
+		if fs.faultsPaused {
+			break
+		}
 		if f.hit || (f.Method != "" && f.Method != method) {
 			continue
 		}
@@ -542,6 +543,13 @@ func (fs *FS) Hit(f *Fault) bool {
 	fs.evmu.Lock()
 	defer fs.evmu.Unlock()
 	return f.hit
+}
+
+// PauseFaults stops (or resumes) fault counting, e.g. around probes.
+func (fs *FS) PauseFaults(p bool) {
+	fs.evmu.Lock()
+	fs.faultsPaused = p
+	fs.evmu.Unlock()
 }
 
 // ClearFaults disarms all faults.
@@ -945,6 +953,9 @@ func (h *H) Open(flags p9.OpenFlags) (q p9.QID, iounit uint32, err error) {
 	h.node = n
 	h.opened = true
 	h.flags = flags
+	h.fs.evmu.Lock()
+	h.fs.handles[h.id].Opens++ // successful opens only: a failed Open may be retried
+	h.fs.evmu.Unlock()
 	return n.qid(), 0, nil
 }
 
